@@ -14,10 +14,12 @@ import time
 
 VERIF = os.path.dirname(os.path.dirname(os.path.abspath(__file__)))
 REPO = os.environ.get("VERIF_REPO", "/repo")
-CACHE = os.path.join(VERIF, ".cache")
+# (VERIF_REPO / VERIF_CACHE / VERIF_EVIDENCE are for tools/seed_try.sh only, which judges a patched scratch
+# worktree without touching /repo, the build cache or the evidence files; registered commands never set them)
+CACHE = os.environ.get("VERIF_CACHE") or os.path.join(VERIF, ".cache")
 HELPERS = os.path.join(CACHE, "helpers")
 SCRATCH = os.path.join(CACHE, "scratch")
-EVIDENCE = os.path.join(VERIF, "evidence")
+EVIDENCE = os.environ.get("VERIF_EVIDENCE") or os.path.join(VERIF, "evidence")
 REPLAYS = os.path.join(VERIF, "replays")
 NPROC = min(16, os.cpu_count() or 4)
 
@@ -142,6 +144,15 @@ def build_harness():
     lk = _lock("cargo-harness")
     try:
         hdir = os.path.join(VERIF, "harness")
+        if REPO != "/repo":
+            alt = os.path.join(CACHE, "harness-src")
+            shutil.rmtree(alt, ignore_errors=True)
+            shutil.copytree(hdir, alt, ignore=shutil.ignore_patterns("target", "Cargo.lock"))
+            with open(os.path.join(alt, "Cargo.toml")) as f:
+                toml = f.read()
+            with open(os.path.join(alt, "Cargo.toml"), "w") as f:
+                f.write(toml.replace('path = "/repo"', 'path = "%s"' % REPO))
+            hdir = alt
         shutil.copyfile(os.path.join(REPO, "Cargo.lock"), os.path.join(hdir, "Cargo.lock"))
         _cargo(["build", "--offline", "--release"], "t-harness", cwd=hdir)
         return os.path.join(CACHE, "t-harness", "release", "harness")
